@@ -28,6 +28,9 @@ def suite_ok(wt):
 # which checks to run for a mutant of property P (own property first)
 EXTRA={'C01':['C14','C09'],'C05':['C07'],'C09':['C01'],'C10':['C11'],'C11':['C10']}
 WT_ROOT=os.environ.get('WT_ROOT','/tmp/wt'); TAG=os.environ.get('SEED_TAG','')
+if TAG=='r3':
+    EXTRA={'C01':['C03','C09'],'C02':['C04'],'C03':['C08','C01'],'C04':['C06','C07','C05'],'C05':['C04','C16'],'C09':['C05','C04'],
+           'C11':['C08','C10'],'C16':['C04','C05'],'C18':['C10'],'C20':['C10','C11']}
 if TAG=='r2':
     EXTRA={'C01':['C14','C09'],'C02':['C15','C07'],'C03':['C11'],'C04':['C19','C08'],'C05':['C19','C16'],'C09':['C01','C15'],
            'C11':['C10','C12'],'C13':['C14'],'C15':['C18'],'C16':['C05'],'C19':['C05'],'C20':['C10','C11']}
@@ -38,7 +41,7 @@ def main():
         for mdir in sorted(glob.glob(wt+'/_mut/m?')):
             m=os.path.basename(mdir)
             dst='/verif/seeded/%s-%s%s'%(P,TAG,m)
-            meta={'property':P,'mutation':TAG+m,'round':2 if TAG=='r2' else 1}
+            meta={'property':P,'mutation':TAG+m,'round':{'r2':2,'r3':3}.get(TAG,1)}
             try: meta['notes']=json.load(open(mdir+'/notes.json'))
             except Exception as e: meta['notes']={'error':str(e)}
             sh('git checkout -- . && git clean -fdxq -e _mut', wt)
